@@ -22,6 +22,8 @@ type Sorts struct {
 	byType  map[string]string // types.TypeString -> sort name
 	structs map[string]*types.Struct
 	Extra   map[string]*DT // spec-level datatypes (sort decls)
+	inProgress map[string]bool // struct sorts being declared: references back to them are opaque (Int)
+	recursiveHit bool
 }
 
 type DT struct {
@@ -44,6 +46,7 @@ func NewSorts() *Sorts {
 		"(declare-datatypes ((Err 0)) (((enil) (emk (emk_id Int)))))",
 		"(declare-datatypes ((Iface 0)) (((inil) (iobj (iobj_tag Int) (iobj_id Int)))))",
 		"(declare-datatypes ((Unit 0)) (((unit))))",
+		"(declare-datatypes ((Event 0)) (((mk_ev (ev_tag Int) (ev_recv Iface) (ev_s1 String) (ev_s2 String) (ev_err Err)))))",
 	)
 	s.done["Any"], s.done["Err"], s.done["Iface"], s.done["Unit"] = true, true, true, true
 	return s
@@ -101,7 +104,13 @@ func (s *Sorts) Sort(t types.Type) string {
 	if n, ok := s.byType[key]; ok {
 		return n
 	}
+	before := len(s.inProgress)
 	n := s.sort(t)
+	if n == "Int" && s.recursiveHit && before > 0 {
+		// a back-reference inside a recursive type: do not cache, the same Go type gets its real sort elsewhere
+		s.recursiveHit = false
+		return n
+	}
 	s.byType[key] = n
 	return n
 }
@@ -124,6 +133,10 @@ func (s *Sorts) sort(t types.Type) string {
 	if named, ok := t.(*types.Named); ok {
 		if st, ok := named.Underlying().(*types.Struct); ok {
 			name := shortPkg(named.Obj().Pkg()) + "_" + sanitize(named.Obj().Name())
+			if s.inProgress[name] {
+				s.recursiveHit = true
+				return "Int"
+			}
 			if targs := named.TypeArgs(); targs != nil && targs.Len() > 0 {
 				for i := 0; i < targs.Len(); i++ {
 					name += "_" + sanitize(s.Sort(targs.At(i)))
@@ -159,6 +172,9 @@ func (s *Sorts) sort(t types.Type) string {
 		return name
 	case *types.Pointer:
 		e := s.Sort(u.Elem())
+		if e == "Int" && s.recursiveHit {
+			return "Int"
+		}
 		n := "Opt_" + e
 		if !s.done[n] {
 			s.done[n] = true
@@ -209,12 +225,21 @@ func (s *Sorts) declStruct(name string, st *types.Struct) {
 	if s.done[name] {
 		return
 	}
-	s.done[name] = true // set first: recursive structs are not supported, this prevents infinite loops
+	s.done[name] = true
+	if s.inProgress == nil {
+		s.inProgress = map[string]bool{}
+	}
+	s.inProgress[name] = true
+	defer delete(s.inProgress, name)
 	s.structs[name] = st
 	var fields []string
 	for i := 0; i < st.NumFields(); i++ {
 		f := st.Field(i)
-		fields = append(fields, fmt.Sprintf("(%s_%s %s)", name, sanitize(f.Name()), s.Sort(f.Type())))
+		fn := sanitize(f.Name())
+		if f.Name() == "_" {
+			fn = fmt.Sprintf("blank%d", i)
+		}
+		fields = append(fields, fmt.Sprintf("(%s_%s %s)", name, fn, s.Sort(f.Type())))
 	}
 	if len(fields) == 0 {
 		s.decls = append(s.decls, fmt.Sprintf("(declare-datatypes ((%s 0)) (((mk_%s))))", name, name))
